@@ -49,6 +49,10 @@ def okObs (strict : Bool) (h : Hist) : Obs → Bool
   | .goaway g => okGoaway h g && (!strict || noRetract h g)
   | .surfaced i => !mustReject h i
   | .rejected i => mustReject h i
+  -- "every request below it is still served": a request shown to the application (by the clause
+  -- above it is below the line) whose peer sent a complete well-formed request is never refused
+  -- service afterwards, whatever GOAWAY was sent or received in between
+  | .notServed _ => false
   | _ => true
 
 def valid (strict : Bool) : Hist → List Obs → Bool
@@ -61,6 +65,27 @@ def outcomes : List Obs → List Nat
   | .surfaced i :: r => i :: outcomes r
   | .rejected i :: r => i :: outcomes r
   | _ :: r => outcomes r
+
+/-! ### requests in progress (for "`accept` says `None` only when drained")
+
+Over the history only: a request is *in progress* from the step that shows it to the application
+(`surfaced id`) until the step `complete id` (the connection has learnt that every handle of the
+request is gone — how it learns that, and that it never learns it early, is `H3.Drain` / C09). -/
+
+def surfacedIn : List Obs → List Nat
+  | [] => []
+  | .surfaced i :: r => i :: surfacedIn r
+  | _ :: r => surfacedIn r
+
+def progressStep (live : List Nat) (st : H3.Goaway.Ev × List Obs) : List Nat :=
+  let live1 :=
+    match st.1 with
+    | .complete id => live.filter (· != id)
+    | _ => live
+  surfacedIn st.2 ++ live1
+
+/-- the requests in progress after a history (a list of steps: event, what it showed). -/
+def inProgress (tr : List (H3.Goaway.Ev × List Obs)) : List Nat := tr.foldl progressStep []
 
 /-! ### client side -/
 
